@@ -112,12 +112,16 @@ def check(run):
             run.violation(sig, text, {"case": c, "outcome": r.get("outcome")})
     # the exit code under --exit-error-on-failure, through the real CLI, for a passing and a failing project
     if run.tier == "thorough" or True:
-        for fail in (False, True):
+        for fail in (False, True, "teardown_suite", "session_fixture_teardown", "disabled_only"):
             code = cli_exit_code(fail)
             run.count("cli_exit_code_checked")
-            if (code != 0) != fail:
-                run.violation("exit-code-wrong", "lcc run --exit-error-on-failure returned %s for a %s project" % (code, "failing" if fail else "passing"),
-                              {"failing_project": fail, "exit_code": code})
+            failing = fail not in (False, "disabled_only")
+            if (code != 0) != failing:
+                run.violation("exit-code-wrong", "lcc run --exit-error-on-failure returned %s for a project that %s" % (code, {
+                    False: "passes", True: "has a failing test", "teardown_suite": "passes all its tests and fails in teardown_suite",
+                    "session_fixture_teardown": "passes all its tests and fails in the teardown of a session fixture",
+                    "disabled_only": "passes its only enabled test and has a disabled one"}[fail]),
+                    {"failing_project": fail, "exit_code": code})
     propcommon.search_failing_schedule(run, cases, runoracle.c02_oracle, results)
     run.coverage["rule"] = ("seeded random projects biased towards failures of every kind in every phase and towards user threads; "
                             "non-trivial = a run whose report holds at least one failed and one passed result")
@@ -130,8 +134,18 @@ def cli_exit_code(fail):
     try:
         os.mkdir(os.path.join(d, "suites"))
         with open(os.path.join(d, "suites", "mysuite.py"), "w") as f:
-            f.write("import lemoncheesecake.api as lcc\nfrom lemoncheesecake.matching import *\n\n"
-                    "@lcc.suite('s')\nclass mysuite:\n    @lcc.test('t')\n    def t(self):\n        check_that('v', 1, equal_to(%d))\n" % (2 if fail else 1))
+            src = ("import lemoncheesecake.api as lcc\nfrom lemoncheesecake.matching import *\n\n"
+                   "@lcc.suite('s')\nclass mysuite:\n    @lcc.test('t')\n    def t(self%s):\n        check_that('v', 1, equal_to(%d))\n" % (
+                       ", fx" if fail == "session_fixture_teardown" else "", 2 if fail is True else 1))
+            if fail == "teardown_suite":
+                src += "    def teardown_suite(self):\n        lcc.log_error('teardown fails')\n"
+            if fail == "disabled_only":
+                src += "    @lcc.test('u')\n    @lcc.disabled()\n    def u(self):\n        check_that('v', 1, equal_to(2))\n"
+            f.write(src)
+        if fail == "session_fixture_teardown":
+            os.mkdir(os.path.join(d, "fixtures"))
+            with open(os.path.join(d, "fixtures", "fx.py"), "w") as f:
+                f.write("import lemoncheesecake.api as lcc\n\n@lcc.fixture(scope='session')\ndef fx():\n    yield 1\n    raise Exception('boom')\n")
         env = dict(os.environ, PYTHONPATH=lib.REPO)
         p = subprocess.run([lib.PY, "-c", "import sys; from lemoncheesecake.cli.main import main; sys.exit(main(sys.argv[1:]))",
                             "run", "--exit-error-on-failure"], cwd=d, env=env,
